@@ -321,7 +321,7 @@ def build(S: Sources, tier="quick") -> Unit:
     for n, s, tier in [(0, 0, "quick"), (0, 5, "quick"), (1, 1, "quick"), (1, 3, "quick"), (2, 3, "thorough"), (3, 1, "thorough"), (3, 3, "thorough"), (4, 3, "thorough")]:
         hs.append(KaniHarness(f"verif_c05::time_n{n}_s{s}", "bounded", bound=f"exactly {n} samples, sample_size {s}, symbolic u128 durations",
                               covers="BenchContext::compute_stats (time statistics, NaN freedom, no panic)", tier=tier))
-    for n, tier in [(1, "quick"), (2, "thorough"), (3, "thorough")]:
+    for n, tier in [(1, "thorough"), (2, "thorough"), (3, "thorough")]:
         hs.append(KaniHarness(f"verif_c05::attr_n{n}_s2", "bounded", bound=f"exactly {n} samples in a symbolic order, concrete distinct tallies, sample_size 2",
                               covers="BenchContext::compute_stats (allocation / counter figures belong to the samples that supplied the time)", tier=tier))
     return Unit(
